@@ -288,9 +288,14 @@ func edKeyFromSeed(c *kc.Ctx, seed []byte, path int) *edKey {
 	k := &edKey{seed: sigClone(seed)}
 	if path%2 == 0 {
 		k.e = &eddsa.EdDSA{}
-		if err := k.e.UnmarshalBinary(sigCat(seed, make([]byte, 32))); err != nil {
+		buf := sigCat(seed, make([]byte, 32))
+		if err := k.e.UnmarshalBinary(buf); err != nil {
 			c.Violation("eddsa:unmarshal", "EdDSA.UnmarshalBinary failed: "+err.Error(), nil)
 			return nil
+		}
+		// the caller's buffer is the caller's: it is reused for something else once the key is loaded
+		for i := range buf {
+			buf[i] ^= 0xa5
 		}
 	} else {
 		k.e = eddsa.NewEdDSA(&sigFixedStream{buf: sigClone(seed), tail: kc.NewRng(1)})
